@@ -5,9 +5,9 @@
 use crate::refmodel::*;
 use crate::tape::Tape;
 
-pub const NUM_GENERATORS: u32 = 10;
-pub const GEN_NAMES: [&str; 10] =
-    ["G0-standard", "G1-opening", "G2-sparse", "G3-enpassant", "G4-castling", "G5-promotion", "G6-extremal", "G7-endgame", "G8-shuffle", "G9-clocks"];
+pub const NUM_GENERATORS: u32 = 11;
+pub const GEN_NAMES: [&str; 11] =
+    ["G0-standard", "G1-opening", "G2-sparse", "G3-enpassant", "G4-castling", "G5-promotion", "G6-extremal", "G7-endgame", "G8-shuffle", "G9-clocks", "G10-mate-hunt"];
 
 fn rand_empty(t: &mut Tape, p: &Pos1, lo_rank: u8, hi_rank: u8) -> Option<u8> {
     for _ in 0..20 {
@@ -423,6 +423,163 @@ fn shuffle(t: &mut Tape) -> Pos1 {
     p
 }
 
+/// a weak king on its fifth rank with an enemy pawn on its start rank on a neighbouring file
+/// and a handful of pieces in the neighbourhood (mates by a double step, among others)
+fn pawn_storm(t: &mut Tape) -> Pos1 {
+    let mut p = Pos1::empty();
+    p.stm = WHITE;
+    let f = t.choose(8) as u8;
+    let bk = sq(f, 4);
+    p.sq[bk as usize] = pc(BLACK, K);
+    let pf = if f == 0 { 1 } else if f == 7 { 6 } else if t.choose(2) == 0 { f - 1 } else { f + 1 };
+    p.sq[sq(pf, 1) as usize] = pc(WHITE, P);
+    let near = |t: &mut Tape| -> u8 {
+        let df = t.range(0, 4) as i8 - 2;
+        let dr = t.range(0, 4) as i8 - 2;
+        let nf = (f as i8 + df).clamp(0, 7) as u8;
+        let nr = (4 + dr).clamp(0, 7) as u8;
+        sq(nf, nr)
+    };
+    let n = t.range(2, 5);
+    for _ in 0..n {
+        let k = *t.pick(&[Q, R, R, B, N, N, P, K]);
+        let s = near(t);
+        if s == sq(pf, 2) || s == sq(pf, 3) {
+            continue;
+        }
+        if k == K {
+            if p.king_sq(WHITE).is_none() {
+                place(&mut p, s, WHITE, K);
+            }
+        } else {
+            place(&mut p, s, WHITE, k);
+        }
+    }
+    if p.king_sq(WHITE).is_none() {
+        if let Some(s) = rand_empty(t, &p, 0, 7) {
+            if s != sq(pf, 2) && s != sq(pf, 3) {
+                p.sq[s as usize] = pc(WHITE, K);
+            }
+        }
+    }
+    let n = t.range(0, 3);
+    for _ in 0..n {
+        let k = *t.pick(&[P, P, N, B, R]);
+        let s = near(t);
+        if s != sq(pf, 2) && s != sq(pf, 3) {
+            place(&mut p, s, BLACK, k);
+        }
+    }
+    p
+}
+
+/// the side to move is in check by one piece and has few pieces of its own (few replies)
+fn in_check_net(t: &mut Tape) -> Pos1 {
+    let mut p = Pos1::empty();
+    p.stm = WHITE;
+    let wk = t.choose(64) as u8;
+    p.sq[wk as usize] = pc(WHITE, K);
+    // the enemy king, preferably on the rim
+    for _ in 0..6 {
+        let s = if t.choose(3) != 0 { sq(t.choose(8) as u8, *t.pick(&[0u8, 7])) } else { t.choose(64) as u8 };
+        if p.sq[s as usize] == EMPTY {
+            p.sq[s as usize] = pc(BLACK, K);
+            break;
+        }
+    }
+    // a checker
+    let kind = *t.pick(&[R, B, Q, N, Q, R]);
+    let mut cands = Vec::new();
+    for s in 0..64u8 {
+        if p.sq[s as usize] != EMPTY {
+            continue;
+        }
+        let mut q = Pos1::empty();
+        q.sq[s as usize] = pc(BLACK, kind);
+        if q.attacked(wk, BLACK) {
+            cands.push(s);
+        }
+    }
+    if !cands.is_empty() {
+        let s = *t.pick(&cands);
+        place(&mut p, s, BLACK, kind);
+    }
+    let n = t.range(1, 4);
+    for _ in 0..n {
+        let k = *t.pick(&[Q, R, B, N, P, R, Q]);
+        if let Some(s) = rand_empty(t, &p, 0, 7) {
+            place(&mut p, s, WHITE, k);
+        }
+    }
+    let n = t.range(0, 4);
+    for _ in 0..n {
+        let k = *t.pick(&[P, P, N, B, R, Q]);
+        if let Some(s) = rand_empty(t, &p, 0, 7) {
+            place(&mut p, s, BLACK, k);
+        }
+    }
+    p
+}
+
+/// G10: search a mixture of generators for a position with a mate in one of a drawn kind
+fn mate_hunt(t: &mut Tape) -> Pos1 {
+    let want = t.choose(9);
+    let mut fallback: Option<Pos1> = None;
+    let tries = if want == 5 || want == 8 { 1500 } else { 250 };
+    for _ in 0..tries {
+        let which = if want == 5 || want == 8 { 6 } else { t.choose(6) };
+        let mut p = match which {
+            6 => in_check_net(t),
+            0 | 1 => pawn_storm(t),
+            2 => endgame(t),
+            3 => sparse(t),
+            4 => promotion(t),
+            _ => castling(t),
+        };
+        if t.choose(2) == 1 {
+            p = p.mirror();
+        }
+        if which == 3 {
+            // sparse() may set an ep marker: a mate by en passant needs one
+        } else if want == 2 {
+            draw_ep(t, &mut p);
+        }
+        p.fmn = 1;
+        p.hmc = if want == 7 { 99 } else { 0 };
+        if p.ep.is_some() {
+            p.hmc = 0;
+        }
+        if !usable(&p) {
+            continue;
+        }
+        if want == 5 && p.legal_moves().len() != 1 {
+            continue;
+        }
+        let mates = p.mating_moves();
+        if mates.is_empty() {
+            continue;
+        }
+        let ok = match want {
+            1 => mates.iter().any(|&m| p.kind(m) == MoveKind::DoubleStep),
+            2 => mates.iter().any(|&m| p.kind(m) == MoveKind::EnPassant),
+            3 => mates.iter().any(|&m| matches!(p.kind(m), MoveKind::CastleK | MoveKind::CastleQ)),
+            4 => mates.iter().any(|&m| matches!(p.kind(m), MoveKind::PromoN | MoveKind::PromoB | MoveKind::PromoR)),
+            5 => p.legal_moves().len() == 1,
+            6 => mates.len() >= 3,
+            7 => p.hmc == 99 && mates.iter().any(|&m| p.kind(m) == MoveKind::Quiet && kind_of(p.sq[m.from as usize]) != P),
+            8 => p.in_check(),
+            _ => true,
+        };
+        if ok {
+            return p;
+        }
+        if fallback.is_none() {
+            fallback = Some(p);
+        }
+    }
+    fallback.unwrap_or_else(Pos1::standard)
+}
+
 /// Draw one start position from generator `g`; returns None if no valid
 /// position was found within the retry budget (the run then falls back to G0).
 pub fn generate(t: &mut Tape, g: u32) -> Pos1 {
@@ -441,6 +598,9 @@ pub fn generate(t: &mut Tape, g: u32) -> Pos1 {
             }
         }
         return p;
+    }
+    if g == 10 {
+        return mate_hunt(t);
     }
     for _ in 0..40 {
         let base = match g {
